@@ -172,7 +172,7 @@ func Damage(t *sim.Tape, frame []byte, fm []ref.Field, other []byte, allowHuge b
 		}
 		fix := t.Bool(1, 2)
 		delta := []int{1, -1, 2, -2, 0, 0}[t.Int(6)]
-		mode := t.Int(4) // 0 delta, 1 zero, 2 max, 3 random
+		mode := t.Int(5) // 0 delta, 1 zero, 2 max, 3 random, 4 a length whose bytes read as <property identifier><byte>
 		var out []byte
 		switch f.Kind {
 		case "str", "bin":
@@ -185,6 +185,10 @@ func Damage(t *sim.Tape, frame []byte, fm []ref.Field, other []byte, allowHuge b
 				nv = 0xFFFF
 			case 3:
 				nv = t.Int(0x10000)
+			case 4:
+				// e.g. 0x26xx: a decoder that has lost its place and looks at the next
+				// byte sees "another user property"
+				nv = int(ref.PropTable[t.Int(len(ref.PropTable))].ID)<<8 | t.Int(256)
 			}
 			if nv < 0 {
 				nv = 0xFFFF
@@ -199,7 +203,7 @@ func Damage(t *sim.Tape, frame []byte, fm []ref.Field, other []byte, allowHuge b
 				nv = 0
 			case 2:
 				nv = 268435455
-			case 3:
+			case 3, 4:
 				nv = int64(t.Int(1 << 21))
 			}
 			if nv < 0 {
